@@ -3,7 +3,7 @@
    Model: C06/Model.v (transcription of psutil/_pslinux.py, _psposix.get_terminal_map),
    specification: C06/Spec.v (kernel formats from proc(5) / fs/proc/array.c),
    generated table: Gen/C06_Tables.v (PROC_STATUSES of the tree under test). *)
-From PV Require Import C06.Spec C06.ProofsStat C06.ProofsThreads C06.ProofsStatus C06.ProofsTty C06.ProofsMisc C06.ProofsCodec C06.ProofsName.
+From PV Require Import C06.Spec C06.ProofsStat C06.ProofsThreads C06.ProofsStatus C06.ProofsTty C06.ProofsMisc C06.ProofsCodec C06.ProofsName C06.ProofsSites.
 From Coq Require Import Permutation.
 
 (* /proc/<pid>/stat: for EVERY comm (any bytes, any length: spaces, parentheses,
@@ -479,3 +479,27 @@ Theorem C06_ctx_long_name_refuted :
             /\ num_ctx_switches (k_status r) = Val (9, 18446744073709551615).
 Proof. exact ctx_long_name_refuted. Qed.
 Print Assumptions C06_ctx_long_name_refuted.
+
+(* interpreter modes (python -bb / -W error): in the reader functions of psutil/_pslinux.py, as dumped
+   from the source under test (ast), no f-string field, '%' operand, debug()/warn()/str()/format()/print()
+   argument or comparison with a str literal is a bytes-typed local, a slice of one, or an element of a
+   container of bytes -- so building a message can never raise BytesWarning, also on the fallback paths *)
+Theorem C06_no_bytes_formatting : forallb site_ok format_sites = true.
+Proof. exact no_bytes_formatting. Qed.
+Print Assumptions C06_no_bytes_formatting.
+
+Theorem C06_sites_cover_readers :
+  forallb (fun fn => existsb (fun s => beqb (fst (fst (fst s))) fn) format_sites) c06_readers = true.
+Proof. exact sites_cover_readers. Qed.
+Print Assumptions C06_sites_cover_readers.
+
+Theorem C06_example_site_ok_rejects :
+  site_ok (bs "_parse_stat_file", bs "fstring", bs "var", bs "name") = false
+  /\ site_ok (bs "_parse_stat_file", bs "call-debug", bs "index", bs "fields") = false
+  /\ site_ok (bs "threads", bs "percent", bs "index", bs "values") = false
+  /\ site_ok (bs "status", bs "cmp-str", bs "var", bs "letter") = false
+  /\ site_ok (bs "cpu_times", bs "fstring", bs "index", bs "call:_parse_stat_file") = false
+  /\ site_ok (bs "_parse_stat_file", bs "fstring", bs "repr", bs "name") = true
+  /\ site_ok (bs "threads", bs "fstring", bs "var", bs "thread_id") = true.
+Proof. exact site_ok_rejects. Qed.
+Print Assumptions C06_example_site_ok_rejects.
